@@ -1136,7 +1136,7 @@ ALL_ENTRIES = ['Obs', 'mixed', 'CObs', 'cmixed']
 
 
 def plan(tier):
-    m = 1 if tier == 'quick' else 30
+    m = 1 if tier == 'quick' else 90
     p = []
     for nfac in (2, 3, 4):
         for ent in ALL_ENTRIES:
